@@ -480,7 +480,7 @@ def main(tier, replay):
     v = Verdict(PID)
     cov = {"checker_cmd": "coq/mk.sh theories/Backoff/Props.vo (coqc 8.16.1, full .vo build) + Print Assumptions per theorem",
            "trusted_base": vlib.TRUSTED_BASE + [
-               "modelled: Go int as unbounded Z (ranges proved by C20_no_overflow), float64 expo as exact integer min(cap, base*2^n) (C20_expo_saturates/_arg_exact + differential on the real expo up to n = 2000)",
+               "modelled: Go int as unbounded Z (ranges proved by C20_no_overflow), float64 expo as exact integer min(cap, base*2^n) (C20_expo_float_exact: IEEE binary64 model go_expo = integer expo for base, cap < 2^53 and every n; go_expo and expo both compared with the real expo up to n = 2000)",
                "b_hi is a ghost field of the model (no counterpart in the code, not compared)",
                "modelled: the closure state of newBackoffFn (attempts, lastSleep) as a record; math/rand jitter treated relationally (observed sleep checked against sleep_ok)",
                "observation of the pre-cut sleep through the package's own 'backoff' debug log line (zap core installed by the driver)",
